@@ -67,6 +67,8 @@ def site_results(fi, call, premises=(), honest_premise=True, guard_value=None):
             v = Valuer(env)
             v.helpers = {s_.name: s_ for s_ in fi.module.tree.body if isinstance(s_, ast.FunctionDef)}
             v.split_disjunctions = True
+            from .c02 import _returns_bits as _rb1
+            v.bit_calls = lambda call_, fi_=fi: _rb1(fi_.module.repo, fi_, call_)
             if guard_value == 0:
                 v.assume(ast.parse("is_guard()", mode="eval").body, False)
             t_g = ast.parse("is_guard()", mode="eval").body
